@@ -86,7 +86,8 @@ class Geometry:
     interior_left: the even-odd interior lies on the left of every loop (outer loops ccw)."""
 
     def __init__(self, loops, poi, cell, kind=""):
-        self.loops = [[(Fr(x), Fr(y)) for x, y in lp] for lp in loops]
+        # the exact values of the f64 numbers the harness will hand to the kernel
+        self.loops = [[(Fr(float(x)), Fr(float(y))) for x, y in lp] for lp in loops]
         self.poi = sorted(poi)
         self.cell = (Fr(cell[0]), Fr(cell[1]))
         self.kind = kind
@@ -112,8 +113,21 @@ class Geometry:
     def all_poi(self):
         return len(self.poi) == len(self.verts)
 
+    def without(self, drop):
+        """the same geometry on the same grid with the loops `drop` removed"""
+        keep = [li for li in range(len(self.loops)) if li not in drop]
+        ren = {li: k for k, li in enumerate(keep)}
+        g = Geometry([self.loops[li] for li in keep], [(ren[li], i) for li, i in self.poi if li in ren], self.cell, self.kind)
+        g.fixed_grid = self.grid()
+        for a in ("interior_left", "poi_mode"):
+            if hasattr(self, a):
+                setattr(g, a, getattr(self, a))
+        return g
+
     # the grid `compute_overlapping_grid` chooses when no shift is needed
     def grid(self):
+        if getattr(self, "fixed_grid", None):
+            return self.fixed_grid
         cx, cy = self.cell
         xs = [p[0] for p in self.verts]
         ys = [p[1] for p in self.verts]
@@ -165,6 +179,66 @@ class Geometry:
                     t = (gy - p[1]) / (q[1] - p[1])
                     out.append((k, t, (p[0] + t * (q[0] - p[0]), gy)))
         return out
+
+    def captured_labeled(self):
+        """per loop: the captured points in loop order with labels ('poi', v) / ('x', i) / ('y', j)
+        (crossing of the i-th vertical / j-th horizontal grid line)"""
+        cx, cy = self.cell
+        ox, oy, nx, ny = self.grid()
+        poi = set(self.poi_ids())
+        res = []
+        k = 0
+        for li, lp in enumerate(self.loops):
+            pts = []
+            for i in range(len(lp)):
+                v = self.vid(li, i)
+                if v in poi:
+                    pts.append((lp[i], ("poi", v)))
+                p, q = self.verts[self.segs[k][0]], self.verts[self.segs[k][1]]
+                here = []
+                for a in range(nx + 1):
+                    gx = ox + a * cx
+                    if (p[0] - gx) * (q[0] - gx) < 0:
+                        t = (gx - p[0]) / (q[0] - p[0])
+                        here.append((t, (gx, p[1] + t * (q[1] - p[1])), ("x", a)))
+                for b in range(ny + 1):
+                    gy = oy + b * cy
+                    if (p[1] - gy) * (q[1] - gy) < 0:
+                        t = (gy - p[1]) / (q[1] - p[1])
+                        here.append((t, (p[0] + t * (q[0] - p[0]), gy), ("y", b)))
+                pts += [(pt, lab) for _, pt, lab in sorted(here)]
+                k += 1
+            res.append(pts)
+        return res
+
+    def flat_chords(self):
+        """captured chords that lie on a grid line: two consecutive crossings of the same grid line with no
+        point of interest in between (the boundary enters and leaves a cell through the same cell side, all
+        corners in between being regular).  Returns (n_flat, n_flat_crossed): `crossed` = some other crossing
+        of the boundary lies strictly between the two ends on that line."""
+        allc = {}
+        lab = self.captured_labeled()
+        for lp in lab:
+            for pt, l in lp:
+                if l[0] != "poi":
+                    allc.setdefault(l, []).append(pt)
+        flat = crossed = 0
+        self.flat_crossed_segs = []
+        for lp in lab:
+            n = len(lp)
+            if n < 2:
+                continue
+            for i in range(n):
+                (p, l1), (q, l2) = lp[i], lp[(i + 1) % n]
+                if l1[0] == "poi" or l1 != l2 or (n == 2 and i == 1):
+                    continue
+                flat += 1
+                ax = 1 if l1[0] == "x" else 0       # coordinate that varies along the line
+                lo, hi = min(p[ax], q[ax]), max(p[ax], q[ax])
+                if any(lo < r[ax] < hi for r in allc[l1]):
+                    crossed += 1
+                    self.flat_crossed_segs.append((p, q))
+        return flat, crossed
 
     def captured_loops(self):
         """the boundary grisubal is specified to capture: per loop, the crossings and the points of
@@ -513,3 +587,61 @@ def covered(seg, edges, tol=TOL):
             return False
         reach = max(reach, hi)
     return reach >= 1 - eps
+
+
+# ---------------------------------------------------------------------------------------------
+# implementation-only campaign (the geometric pipeline is not modelled: DESIGN.md §7 C16/C17)
+# ---------------------------------------------------------------------------------------------
+
+def impl_campaign(cases, oracle, parts=12):
+    """like hv.campaign, but only the implementation driver runs; every failure is an oracle failure"""
+    import concurrent.futures as cf
+    import hashlib
+
+    import hv
+    slices = [cases[i::parts] for i in range(parts)] if len(cases) >= parts else [cases]
+    slices = [s for s in slices if s]
+
+    def work(cs):
+        rc, out = hv.run_bin(hv.HCIMPL, hv.render(cs))
+        groups = hv.split_outputs(out)
+        res = []
+        for k, c in enumerate(cs):
+            li = groups[k][1] if k < len(groups) else ["<missing: implementation driver died>"]
+            o = oracle(c, li)
+            res.append((c, li, o if isinstance(o, tuple) or o is None else (o, None)))
+        return res
+
+    stats = {"cases": len(cases), "lines": 0, "disagreements": 0, "oracle_failures": 0, "impl_outcomes": {}, "ops": {}}
+    violations, samples, distinct = [], [], set()
+    with cf.ThreadPoolExecutor(len(slices) or 1) as ex:
+        results = [r for part in ex.map(work, slices) for r in part]
+    for c, li, of2 in results:
+        ofail, finding = of2 if of2 else (None, None)
+        stats["lines"] += len(li)
+        distinct.add(hashlib.md5("\n".join(li).encode()).hexdigest())
+        for ln in c.lines:
+            k = ln.split(" ", 1)[0]
+            stats["ops"][k] = stats["ops"].get(k, 0) + 1
+        for ln in li:
+            k = ln.split(" ")
+            key = k[0] if k[0] != "err" else " ".join(k[:2])
+            if key in ("ok", "panic") or key.startswith("err"):
+                stats["impl_outcomes"][key] = stats["impl_outcomes"].get(key, 0) + 1
+        if ofail:
+            stats["oracle_failures"] += 1
+            violations.append({
+                "kind": "oracle",
+                "what": f"property fails on the implementation on case {c.cid}: {ofail}",
+                "found_input": True,
+                "sig": c.meta.get("sig", ""),
+                "finding": finding,
+                "tags": sorted({t.split(":")[0] for t in ofail.split("; ")}),
+                "meta": {k: v for k, v in c.meta.items() if k in ("facts",)},
+                "replay": {"case": c.cid, "input_lines": c.lines, "impl_output": [x[:400] for x in li], "oracle_failure": ofail,
+                           "replay_cmd": f"printf '%s\\n' <input_lines> | {hv.HCIMPL_PATH}"},
+            })
+        if len(samples) < 3:
+            samples.append({"case": c.cid, "input": [x[:300] for x in c.lines[:4]], "impl_output": [x[:300] for x in li[:4]]})
+    stats["distinct_nontrivial"] = len(distinct)
+    return {"stats": stats, "violations": violations, "samples": samples}
